@@ -17,7 +17,7 @@ use serde::{Deserialize, Serialize};
 use serde_json::{json, Map, Value};
 use simcore::codec::{Api, Format};
 use simcore::decl::Decl;
-use simcore::diff::{build_doc, diff_get, diff_stream, GetResult, Side};
+use simcore::diff::{build_doc, diff_get, diff_in_place, diff_stream, GetResult, Side};
 use simcore::report::{self, hex, unhex, Config, EvidenceExtra};
 use simcore::rng::{Fnv, Rng};
 use simcore::runner::{self, Stats, Violation, WorkerCtx};
@@ -234,7 +234,7 @@ impl<'a> DeclVisitor for BuildSession<'a> {
                 _ => {
                     let blob = *rng.pick(&lens.keys().copied().collect::<Vec<_>>());
                     let len = lens[&blob];
-                    let api = if stream { Api::Reader } else { *rng.pick(&[Api::Reader, Api::Reader, Api::Reader, Api::Slice, Api::Str, Api::Value]) };
+                    let api = if stream { Api::Reader } else { *rng.pick(&[Api::Reader, Api::Reader, Api::Reader, Api::Slice, Api::Str, Api::Value, Api::InPlace]) };
                     let (mut rplan, tail) = gen_rplan(rng, len, true);
                     let overwrite_hex = if rng.chance(1, 8) {
                         let (_, nb) = gen_doc::<D>(rng, shape, core, fmt, stream);
@@ -429,6 +429,19 @@ impl<'a> DeclVisitor for ExecSession<'a> {
                     };
                     let res = run(&rdr);
                     record_get(&mut out, &s.decl, s.shape, s.fmt, *api, *stream, &res, tainted, overwrite_hex.is_some(), i);
+                    // deserialize_in_place over a host that already holds valid values
+                    if *api == Api::InPlace && !*stream {
+                        let ip = diff_in_place::<D>(s.shape, s.fmt, &rdr, !cat_c04::NOT_IDEMPOTENT.contains(&D::NAME));
+                        if ip.ran {
+                            out.probe("probe.deserialize_in_place_compared");
+                            if !ip.a.is_ok() {
+                                out.probe("probe.deserialize_in_place_failed_place_inspected");
+                            }
+                            for (inv, d) in ip.violations {
+                                out.violations.push((i, inv.to_string(), d));
+                            }
+                        }
+                    }
                     // Deserialization is a function of the document: the same read again (same
                     // store state, same read plan) must give the same result, whatever else
                     // this or any other thread deserialized in between (no hidden state).
@@ -1030,6 +1043,8 @@ fn run_check(cfg: &Config) -> i32 {
         "probe.byzantine_visit_rejected",
         "probe.benign_invisibility_checked",
         "probe.repeat_read_compared",
+        "probe.deserialize_in_place_compared",
+        "probe.deserialize_in_place_failed_place_inspected",
         "fault.format_error",
         "fault.torn_write",
         "fault.lost_unsynced_write",
